@@ -148,6 +148,19 @@ func TestC09(t *testing.T) {
 						h.Stop()
 						<-h.Done
 					}
+				case "staggered-dials-then-accept":
+					// dial; a second dial to the same id half-way through the first one's
+					// window (its expiry goroutine outlives the first); once the first has
+					// expired, an accept with no dial, which must simply time out
+					var wg sync.WaitGroup
+					d1 := make(chan struct{})
+					wg.Add(2)
+					go func() { defer wg.Done(); defer close(d1); addErr("dial1: " + pr.dialOnce(side, id)) }()
+					time.Sleep(2500 * time.Millisecond)
+					go func() { defer wg.Done(); addErr("dial2: " + pr.dialOnce(side, id)) }()
+					<-d1
+					addErr("accept: " + pr.acceptOnce(other(side), id, 300*time.Millisecond))
+					wg.Wait()
 				case "accept-timeout-then-dial":
 					addErr(pr.acceptOnce(other(side), id, 300*time.Millisecond))
 					addErr(pr.dialOnce(side, id))
